@@ -139,6 +139,7 @@ func buildWorld(ctx context.Context, spec WorldSpec, dir string) (*World, error)
 		if err != nil || !ok {
 			return nil, fmt.Errorf("commit batch %d: ok=%v err=%v", b, ok, err)
 		}
+		nbs.DsimWaitConjoin(st)
 	}
 	switch spec.Kind {
 	case "local-gc", "journal-gc":
